@@ -74,7 +74,10 @@ EMBED = [('called_function_expression', '(function(){ # })()'), ('callback_argum
 LAYOUT = [('none', ''), ('space', ' '), ('tab', '\t'), ('nbsp', '\xa0'), ('LF', '\n'), ('CRLF', '\r\n'),
           ('LS', '\u2028'), ('block_comment', ' /* c */ '), ('line_comment', ' // c\n'),
           ('multiline_comment', ' /* c\n */ '), ('vt', '\x0b')]
-FOLLOW = ['/re/.test(x)', '/ 2 / 3', '/=/.exec(s)', '/= 2', '/ a /g', '/[/]/', '/re/', '/a/g / 2', '/ /', '/\\//']
+FOLLOW = ['/re/.test(x)', '/ 2 / 3', '/=/.exec(s)', '/= 2', '/ a /g', '/[/]/', '/re/', '/a/g / 2', '/ /', '/\\//',
+          # where a regex literal *ends* decides what the next '/' is: classes that are empty, that hold ']' or '/'
+          '/[^]/.exec(s)[0] /i / 2', '/[]/.test(s) ? a[0] / 2 : 1', '/[]]/ / 2', '/[^]]/g / b[0] / c', '/[\\]/]/ / 2 / [1]',
+          '/a/x / 2', '/a/g2.test(s)', '/re/Gi / b / c']
 
 
 def observed_classes(log):
